@@ -464,6 +464,22 @@ func buildProbes() []probe {
 			}
 		}
 	}
+	// associative with two leading constants (the checker folds only all-constant
+	// nodes): on base.u64 the first literal is converted to uint64_t
+	// (fixes/C04-assoc-leading-constants.patch)
+	for _, as := range [][2]string{{"+", "A+"}, {"*", "A*"}, {"&", "A&"}, {"|", "A|"}, {"^", "A^"}} {
+		for _, ty := range probeTypes {
+			c0, c1, ref := "3", "5", "[..= 7]"
+			if ty == "u64" {
+				c0, c1, ref = "4294967295", "4294967293", "[..= 1]"
+			} else if ty == "u32" {
+				c0, c1 = "60000", "70000"
+			}
+			nm := name("k")
+			ps = append(ps, probe{name: nm, op: fmt.Sprintf("lowerassoc %s %s 1 c%s c%s", as[1], ty, c0, c1),
+				src: fmt.Sprintf("pri func s.%s(z: base.%s%s) base.%s {\n    return %s %s %s %s args.z\n}\n", nm, ty, ref, ty, c0, as[0], c1, as[0])})
+		}
+	}
 	for _, lo := range [][2]string{{"and", "Aand"}, {"or", "Aor"}} {
 		nm := name("s")
 		ps = append(ps, probe{name: nm, op: "lowerassoc " + lo[1] + " u8 1",
